@@ -341,6 +341,21 @@ class G:
             groups = groups[:1]
         return head + groups
 
+    def length_rivals(self):
+        """two templates of equal depth reached through different values of one inline parameter, the first with
+        multi-byte literal text: its length in BYTES is above the rival's, its length in characters below it"""
+        r = self.r
+        mb = r.choice(['\u00e9', '\u00f1', '\u20ac', '\u017d']).encode()
+        sep = r.choice([b'-', b'.'])
+        lit = mb + sep + mb * r.choice([1, 2])
+        t1 = [('s', b'/'), ('d', b'a', None), ('s', sep + lit)]
+        text1 = b'/{a}' + sep + lit
+        bytes1, chars1 = len(text1), len(text1.decode())
+        target = r.randint(chars1 + 1, bytes1)
+        name = b'b' * max(1, target - 7)
+        t2 = [('s', b'/'), ('d', b'a', None), ('s', sep), ('d', name, None)]
+        return t1, t2
+
     def key_sibling(self, items):
         """copy of a template that differs from it in exactly one component of one parameter key: same name
         with another (non-empty) constraint, or another name with the same constraint - so that two children
@@ -412,6 +427,9 @@ class G:
             elif k < 0.82:
                 t, ext = self.dup_group(vocab)
                 pool.append(t); pool.append(ext)
+            elif k < 0.86:
+                t1, t2 = self.length_rivals()
+                pool.append(t1); pool.append(t2)
             else:
                 pool.append(self.template_items(vocab))
         return pool
@@ -792,6 +810,9 @@ def scen_conflict(g, n):
         used = []
         k = r.choice([3, 3, 4, 5])
         chain = [g.segment(used, vocab) for _ in range(k)]
+        if r.random() < 0.3:
+            # live templates and candidates that END in white space (ASCII or not): messages must keep it
+            chain[-1] = chain[-1] + [('s', r.choice([b' ', b'\t', '\u00a0'.encode(), '\u2003'.encode(), b'  ']))]
 
         def nested(S):
             S = sorted(S)
